@@ -5,8 +5,34 @@ RULE = ("every operator/assertion/conversion/selection/array access x operand ki
         "distinct = (prime, operation, operand kinds, mode) classes; an event is one public API call")
 
 
+def repo_tests_under_recorder(run):
+    """The repository's own 75 tests, re-run on the recording backend; TLC evaluates Inv_Sat on what each test traced."""
+    import json
+    import os
+    import subprocess
+    from harness import common
+    with common.scratch("rt_") as d:
+        out = os.path.join(d, "traces.json")
+        env = common.child_env({"VERIF_ROOT": common.ROOT, "VERIF_REC_P": "32749", "VERIF_REC_OUT": out,
+                                "PYTHONPATH": os.path.join(common.ROOT, "harness", "pytest_plugin") + os.pathsep + common.ROOT + os.pathsep + common.REPO})
+        p = subprocess.run([common.PY, "-m", "pytest", "-q", "-p", "no:cacheprovider", "-p", "verif_recorder", os.path.join(common.REPO, "test")],
+                           cwd=d, env=env, stdout=subprocess.PIPE, stderr=subprocess.STDOUT, timeout=1800)
+        if not os.path.exists(out):
+            raise common.MachineryError("repository tests under the recorder produced no traces: " + p.stdout.decode("utf8", "replace")[-1500:])
+        traces = json.load(open(out))["traces"]
+    judged = [t for t in traces if t["events"][1]["out"] == "ok"]
+    run.notes.append("repository tests under the recorder: %d tests traced, %d without a provoked exception judged" % (len(traces), len(judged)))
+    run.evaluations += len(judged)
+    for t in judged:
+        run.nontrivial.add(("repo-test", t["id"]))
+    res = common.validate_traces(run, "TraceCore", traces, cfg="TraceCore_C01.cfg", label="repository tests under the recorder", props=["C01", "C04"], chunk=100, parallel=4)
+    return res
+
+
 def main(tier):
     run = c01.run_core("C01", tier, "TraceCore_C01.cfg", RULE)
+    if not run.violations:
+        repo_tests_under_recorder(run)
     return run.finish(RULE, assumptions=["constraints are judged modulo the recording backend's small prime; the library is field-parametric",
                                          "the recording backend's witness lists are append-only"],
                       trusted=["TLC 1.8", "harness/recorder.py (observer)", "harness/driver.py (observer)"])
